@@ -111,7 +111,7 @@ func main() {
 							found = true
 						}
 						switch sel.Sel.Name {
-						case "Load", "Store", "CompareAndSwap", "Swap":
+						case "Load", "Store", "CompareAndSwap", "Swap", "Add", "And", "Or":
 							found = true
 						}
 					}
@@ -133,6 +133,7 @@ func main() {
 			o := off(lbrace) + 1
 			edits = append(edits, edit{o, o, fmt.Sprintf(" __vh.Yield(%d);", id)})
 		}
+		poolRewritten := false
 		var walk func(n ast.Node)
 		walk = func(n ast.Node) {
 			ast.Inspect(n, func(n ast.Node) bool {
@@ -173,6 +174,76 @@ func main() {
 								}
 							}
 						}
+					}
+				case *ast.SelectorExpr:
+					// sync.Pool -> the deterministic LIFO pool of the hook package (sync.Pool's choice
+					// of item depends on Ps, garbage collections and, in race builds, a random drop)
+					if id, ok := x.X.(*ast.Ident); ok && id.Name == "sync" && (x.Sel.Name == "Pool" || x.Sel.Name == "Once" || x.Sel.Name == "WaitGroup") && importsSync {
+						// sync.Once -> a Once whose waiting callers yield instead of blocking for real
+						edits = append(edits, edit{off(x.Pos()), off(x.End()), "__vh." + x.Sel.Name})
+						poolRewritten = true
+						return false
+					}
+				case *ast.AssignStmt:
+					// v, ok := <-c  (outside select): the two-value receive
+					if len(x.Lhs) == 2 && len(x.Rhs) == 1 {
+						if u, ok := x.Rhs[0].(*ast.UnaryExpr); ok && u.Op == token.ARROW {
+							ch := string(src[off(u.X.Pos()):off(u.X.End())])
+							if !strings.Contains(ch, "\n") {
+								id := next
+								next++
+								sites = append(sites, site{ID: id, File: rel, Line: fset.Position(u.Pos()).Line, Kind: "recv", Func: curFunc()})
+								edits = append(edits, edit{off(u.Pos()), off(u.End()), fmt.Sprintf("__vh.Recv2(%s, %d)", ch, id)})
+								for _, l := range x.Lhs {
+									walk(l)
+								}
+								return false
+							}
+						}
+					}
+				case *ast.ValueSpec:
+					if len(x.Names) == 2 && len(x.Values) == 1 {
+						if u, ok := x.Values[0].(*ast.UnaryExpr); ok && u.Op == token.ARROW {
+							ch := string(src[off(u.X.Pos()):off(u.X.End())])
+							if !strings.Contains(ch, "\n") {
+								id := next
+								next++
+								sites = append(sites, site{ID: id, File: rel, Line: fset.Position(u.Pos()).Line, Kind: "recv", Func: curFunc()})
+								edits = append(edits, edit{off(u.Pos()), off(u.End()), fmt.Sprintf("__vh.Recv2(%s, %d)", ch, id)})
+								return false
+							}
+						}
+					}
+				case *ast.UnaryExpr:
+					// <-c anywhere else outside the communication of a select case
+					if x.Op == token.ARROW {
+						ch := string(src[off(x.X.Pos()):off(x.X.End())])
+						if strings.Contains(ch, "\n") {
+							return true
+						}
+						id := next
+						next++
+						sites = append(sites, site{ID: id, File: rel, Line: fset.Position(x.Pos()).Line, Kind: "recv", Func: curFunc()})
+						edits = append(edits, edit{off(x.Pos()), off(x.End()), fmt.Sprintf("__vh.Recv(%s, %d)", ch, id)})
+						return false
+					}
+				case *ast.SelectStmt:
+					// a select without default blocks until a case is ready: give it a default clause
+					// that hands the baton on and tries again (no wrapper loop, so break/continue in
+					// the case bodies keep their meaning)
+					hasDefault := false
+					for _, cc := range x.Body.List {
+						if c, ok := cc.(*ast.CommClause); ok && c.Comm == nil {
+							hasDefault = true
+						}
+					}
+					if !hasDefault && len(x.Body.List) > 0 {
+						id := next
+						next++
+						sites = append(sites, site{ID: id, File: rel, Line: fset.Position(x.Pos()).Line, Kind: "select", Func: curFunc()})
+						edits = append(edits, edit{off(x.Pos()), off(x.Pos()), fmt.Sprintf("__vhS%d: ", id)})
+						o := off(x.Body.Rbrace)
+						edits = append(edits, edit{o, o, fmt.Sprintf("; default: __vh.Wait(%d); goto __vhS%d; ", id, id)})
 					}
 				case *ast.CommClause:
 					// a send or receive that is the communication of a select case stays as it
@@ -240,6 +311,11 @@ func main() {
 		if len(edits) == 0 {
 			continue
 		}
+		if poolRewritten {
+			// keep the "sync" import used
+			o := len(src)
+			edits = append(edits, edit{o, o, "\nvar _ sync.Locker\n"})
+		}
 		// the import goes on the package line
 		pe := off(f.Name.End())
 		edits = append(edits, edit{pe, pe, fmt.Sprintf("; import __vh %q", *modpath+"/verifhook")})
@@ -265,18 +341,25 @@ func main() {
 		overlay[path] = dst
 	}
 	// the virtual hook package
-	hdst := filepath.Join(*out, "src", "verifhook", "hook.go")
-	os.MkdirAll(filepath.Dir(hdst), 0o755)
-	hb, err := os.ReadFile(*hookSrc)
-	if err != nil {
-		fmt.Fprintln(os.Stderr, "instrument:", err)
+	hookFiles, _ := filepath.Glob(filepath.Join(filepath.Dir(*hookSrc), "*.go"))
+	if len(hookFiles) == 0 {
+		fmt.Fprintln(os.Stderr, "instrument: no hook sources next to", *hookSrc)
 		os.Exit(2)
 	}
-	os.WriteFile(hdst, hb, 0o644)
-	overlay[filepath.Join(*repo, "verifhook", "hook.go")] = hdst
+	for _, hf := range hookFiles {
+		hdst := filepath.Join(*out, "src", "verifhook", filepath.Base(hf))
+		os.MkdirAll(filepath.Dir(hdst), 0o755)
+		hb, err := os.ReadFile(hf)
+		if err != nil {
+			fmt.Fprintln(os.Stderr, "instrument:", err)
+			os.Exit(2)
+		}
+		os.WriteFile(hdst, hb, 0o644)
+		overlay[filepath.Join(*repo, "verifhook", filepath.Base(hf))] = hdst
+	}
 	ob, _ := json.MarshalIndent(map[string]interface{}{"Replace": overlay}, "", " ")
 	os.WriteFile(filepath.Join(*out, "overlay.json"), ob, 0o644)
 	sb, _ := json.Marshal(sites)
 	os.WriteFile(filepath.Join(*out, "sites.json"), sb, 0o644)
-	fmt.Printf("instrument: %d files, %d sites\n", len(overlay)-1, next)
+	fmt.Printf("instrument: %d files, %d sites\n", len(overlay)-len(hookFiles), next)
 }
